@@ -31,8 +31,8 @@ Representation choices (each is exercised by the per-run correspondence with the
   `self.ast[element_list] → clause.symbol_list → Symbol`.  The model stores the inverse pointer:
   `Sym.sec` / `Ext.sec` is the index (within the class's composition) of the element list whose value
   contains the declaring clause; `Frame.closed` holds the labels (`epriv`: none, `'public'`,
-  `'protected'`) of the element lists exited so far.  ANTLR's labels `epub` / `epro` hold the *last*
-  element list so labelled; `Frame.composition` transcribes that.
+  `'protected'`) of the element lists exited so far, which is what the loop over the children of the
+  composition in `exitComposition` reads.
 * **The symbols of the clause being walked** are in `class_node.symbols` from `enterDeclaration` on.
   The model keeps them in `ClauseSt.syms` and appends them to the frame in `exitClause`; the
   duplicate check looks at both lists.  (No other callback reads `class_node.symbols` in between.)
@@ -253,6 +253,7 @@ structure ClauseSt where
 structure Frame where
   info : ClassInfo
   classes : List ClassAst
+  lastChild : Option ClassAst       -- `self.ast[ctx]` of the class definition exited last inside this class
   closed : List (Option Vis)
   eqSecs : List (Bool × List String)
   algSecs : List (Bool × List String)
@@ -262,7 +263,6 @@ structure LState where
   clause : Option ClauseSt
   ctr : Ctr
   inExtends : Bool
-  lastClass : Option ClassAst
   fileClasses : List ClassAst
 
 def ClassInfo.new (kind : String) (p e : Bool) : ClassInfo :=
@@ -271,12 +271,12 @@ def ClassInfo.new (kind : String) (p e : Bool) : ClassInfo :=
     statements := [], initialStatements := [], annotation := none }
 
 def Frame.new (kind : String) (p e : Bool) : Frame :=
-  { info := ClassInfo.new kind p e, classes := [], closed := [], eqSecs := [], algSecs := [] }
+  { info := ClassInfo.new kind p e, classes := [], lastChild := none, closed := [], eqSecs := [], algSecs := [] }
 
 /-- `ASTListener.__init__`: `class_nodes = deque([ast.Class()])`. -/
 def LState.init : LState :=
   { stack := [Frame.new "" false false], clause := none, ctr := ⟨0, .none, 0⟩, inExtends := false,
-    lastClass := none, fileClasses := [] }
+    fileClasses := [] }
 
 /-! ## Pieces shared by the machine and the specification -/
 
@@ -322,34 +322,42 @@ def copyTail (nid : Nat) : List Sym → List Sym
   | [] => []
   | y :: t => { y with dimsId := nid, prefId := nid + 1, typeId := nid + 2 } :: copyTail (nid + 3) t
 
-/-- `exitComponent_clause` on the clause's symbols. -/
-def clauseExit (type : List String) (cdims : Option (List Expr)) (nid : Nat) (syms : List Sym) : List Sym :=
+/-- The loop of `exitComponent_clause` over all symbols of a clause that has array subscripts `d`
+    (`clause.dimensions = [d]` is the new object `nid`): a symbol still holding the clause's default
+    dimensions object (`cid`) gets `clause.dimensions` itself; a symbol with subscripts of its own gets
+    the new list `s.dimensions + clause.dimensions` (tag `m`; one tag is reserved per symbol). -/
+def joinDims (d : List Expr) (cid nid : Nat) : Nat → List Sym → List Sym
+  | _, [] => []
+  | m, y :: t =>
+    (if y.dimsId = cid then { y with dims := [d], dimsId := nid }
+     else { y with dims := y.dims ++ [d], dimsId := m }) :: joinDims d cid nid (m + 1) t
+
+/-- Tags used by the clause-level subscripts: `clause.dimensions` and one per symbol. -/
+def cdimsAlloc (cdims : Option (List Expr)) (n : Nat) : Nat := match cdims with | some _ => 1 + n | none => 0
+
+/-- `exitComponent_clause` on the clause's symbols (`cid`: tag of the clause's default dimensions
+    object, `nid`: first free tag). -/
+def clauseExit (type : List String) (cdims : Option (List Expr)) (cid nid : Nat) (syms : List Sym) : List Sym :=
   -- `clause.type.__dict__.update(...)`: seen through every symbol of the clause
   let s1 := syms.map fun y => { y with type := type }
-  -- `s.dimensions = clause.dimensions` for every symbol when the clause has array subscripts
   let s2 := match cdims with
-    | some d => s1.map fun y => { y with dims := [d], dimsId := nid }
+    | some d => joinDims d cid nid (nid + 1) s1
     | none => s1
   match s2 with
   | [] => []
-  | y0 :: ys => y0 :: copyTail (nid + dimsAlloc cdims) ys
+  | y0 :: ys => y0 :: copyTail (nid + cdimsAlloc cdims syms.length) ys
 
-def clauseExitAlloc (cdims : Option (List Expr)) (n : Nat) : Nat := dimsAlloc cdims + 3 * (n - 1)
+def clauseExitAlloc (cdims : Option (List Expr)) (n : Nat) : Nat := cdimsAlloc cdims n + 3 * (n - 1)
 
-/-- Index of the last element list labelled `v` (ANTLR: a label assigned inside `( ... )*` keeps
-    the last match). -/
-def lastIdx : List (Option Vis) → Vis → Option Nat
-  | [], _ => none
-  | l :: t, v =>
-    match lastIdx t v with
-    | some i => some (i + 1)
-    | none => if l = some v then some 0 else none
+def labelVis : Option Vis → Vis
+  | none => .priv
+  | some v => v
 
-/-- The visibility `exitComposition` gives to the items of element list `k`. -/
-def visOf (labels : List (Option Vis)) (k : Nat) : Vis :=
-  if lastIdx labels .prot = some k then .prot
-  else if lastIdx labels .pub = some k then .pub
-  else .priv
+/-- The visibility `exitComposition` gives to the items of element list `k`: the loop over the
+    children of the composition keeps the last `public` / `protected` keyword seen; every element
+    list but the leading one directly follows its keyword, so the current visibility at list `k` is
+    that of its own label (`PRIVATE` for the leading list). -/
+def visOf (labels : List (Option Vis)) (k : Nat) : Vis := labelVis ((labels[k]?).getD none)
 
 def secItems (secs : List (Bool × List String)) (initial : Bool) : List String :=
   (secs.filter (fun p => p.1 == initial)).flatMap (·.2)
@@ -390,6 +398,10 @@ def Frame.addExt (f : Frame) (path args : List String) : Frame :=
 
 def Frame.finish (f : Frame) : ClassAst := .mk f.info f.classes
 
+/-- `exitClass_definition`: `self.class_node.classes[class_node.name] = class_node`. -/
+def Frame.attach (p : Frame) (c : ClassAst) : Frame :=
+  { p with classes := dictSet p.classes c, lastChild := some c }
+
 def setFinal (fin : Bool) : ClassAst → ClassAst
   | .mk i cs => .mk { i with final := fin } cs
 
@@ -410,12 +422,15 @@ def step (s : LState) : Event → Except Err LState
   | .exitClassDef =>
     match s.stack with
     | f :: p :: rest =>
-      .ok { s with stack := { p with classes := dictSet p.classes f.finish } :: rest, lastClass := some f.finish }
+      .ok { s with stack := p.attach f.finish :: rest }
     | _ => .error (.model "exitClassDef: no enclosing class")
   | .exitStoredClass fin =>
-    match s.lastClass with
-    | some c => .ok { s with fileClasses := dictSet s.fileClasses (setFinal fin c) }
-    | none => .error (.model "exitStoredClass: no class")
+    match s.stack with
+    | [root] =>
+      match root.lastChild with
+      | some c => .ok { s with fileClasses := dictSet s.fileClasses (setFinal fin c) }
+      | none => .error (.model "exitStoredClass: no class")
+    | _ => .error (.model "exitStoredClass: not at top level")
   | .enterClause prefixes =>
     .ok { s with clause := some { prefixes := prefixes, prefId := s.ctr.nextId, typeId := s.ctr.nextId + 1,
                                    dimsId := s.ctr.nextId + 2, syms := [] },
@@ -450,7 +465,7 @@ def step (s : LState) : Event → Except Err LState
     match s.clause, s.stack with
     | some cl, f :: rest =>
       .ok { s with stack := { f with info := { f.info with
-                                symbols := f.info.symbols ++ clauseExit type cdims s.ctr.nextId cl.syms } } :: rest,
+                                symbols := f.info.symbols ++ clauseExit type cdims cl.dimsId s.ctr.nextId cl.syms } } :: rest,
                    clause := none,
                    ctr := { s.ctr with nextId := s.ctr.nextId + clauseExitAlloc cdims cl.syms.length } }
     | _, _ => .error (.model "exitClause: no clause or no class")
@@ -581,7 +596,7 @@ def specClause (c : Clause) (f : Frame) (k : Ctr) : Except Err (Frame × Ctr) :=
   let cl : ClauseSt := { prefixes := c.prefixes, prefId := k.nextId, typeId := k.nextId + 1, dimsId := k.nextId + 2, syms := [] }
   match specDecls cl (f.info.symbols.map (·.name)) f.closed.length c.decls [] { k with nextId := k.nextId + 3 } with
   | .ok (syms, k') =>
-    .ok ({ f with info := { f.info with symbols := f.info.symbols ++ clauseExit c.type c.cdims k'.nextId syms } },
+    .ok ({ f with info := { f.info with symbols := f.info.symbols ++ clauseExit c.type c.cdims cl.dimsId k'.nextId syms } },
          { k' with nextId := k'.nextId + clauseExitAlloc c.cdims syms.length })
   | .error e => .error e
 
@@ -621,9 +636,9 @@ def specElems : Elems → Frame → Ctr → Except Err (Frame × Ctr)
     | .error e => .error e
   | .cls c t, f, k =>
     match specClass c k with
-    | .ok (a, k) => specElems t { f with classes := dictSet f.classes a } k
+    | .ok (a, k) => specElems t (f.attach a) k
     | .error e => .error e
-  | .short s t, f, k => specElems t { f with classes := dictSet f.classes (specShort s) } (ticks s.ticks k)
+  | .short s t, f, k => specElems t (f.attach (specShort s)) (ticks s.ticks k)
 def specSections : Sections → Frame → Ctr → Except Err (Frame × Ctr)
   | .nil, f, k => .ok (f, k)
   | .elems vis es t, f, k =>
@@ -644,5 +659,167 @@ def specFile : List (Bool × ClassSrc) → List ClassAst → Ctr → Except Err 
 /-- The tree the description stands for (as the listener builds it). -/
 def expected (file : List (Bool × ClassSrc)) : Except Err (List ClassAst) :=
   specFile file [] ⟨0, .none, 0⟩
+
+/-! ## Readings of a description and of a tree (used to state the properties) -/
+
+/-- The component clauses a list of elements holds itself (not those of nested classes). -/
+def Elems.clauses : Elems → List Clause
+  | .nil => []
+  | .comp c t => c :: t.clauses
+  | .ext _ t => t.clauses
+  | .imp _ t => t.clauses
+  | .cls _ t => t.clauses
+  | .short _ t => t.clauses
+
+def Sections.clauses : Sections → List Clause
+  | .nil => []
+  | .elems _ es t => es.clauses ++ t.clauses
+  | .eqs _ _ t => t.clauses
+  | .algs _ _ t => t.clauses
+
+/-- The class's own component clauses, in source order. -/
+def ClassSrc.clauses : ClassSrc → List Clause
+  | .mk _ first ss => first.clauses ++ ss.clauses
+
+/-- What the source says about one declared component. -/
+structure SymView where
+  name : String
+  type : List String
+  prefixes : List String
+  dims : List (List Expr)
+  comment : String
+  cmod : Option (List String)
+  deriving DecidableEq, Repr
+
+def Sym.view (y : Sym) : SymView := ⟨y.name, y.type, y.prefixes, y.dims, y.comment, y.cmod⟩
+
+/-- Dimensions of a declarator: its own subscripts first, then the clause's (`Real[3] b[2]` is a
+    2 x 3 array), the default when there are none. -/
+def dimsSpec (cdims own : Option (List Expr)) : List (List Expr) :=
+  match cdims, own with
+  | some c, some o => [o, c]
+  | some c, none => [c]
+  | none, some o => [o]
+  | none, none => defaultDims
+
+def Clause.views (c : Clause) : List SymView :=
+  c.decls.map fun d => ⟨d.name, c.type, c.prefixes, dimsSpec c.cdims d.dims, d.comment, applyMod none d.mod⟩
+
+def Clause.names (c : Clause) : List String := c.decls.map (·.name)
+
+def ClassSrc.views (c : ClassSrc) : List SymView := c.clauses.flatMap Clause.views
+def ClassSrc.names (c : ClassSrc) : List String := c.clauses.flatMap Clause.names
+
+def Elems.exts : Elems → List ExtSrc
+  | .nil => []
+  | .comp _ t => t.exts
+  | .ext e t => e :: t.exts
+  | .imp _ t => t.exts
+  | .cls _ t => t.exts
+  | .short _ t => t.exts
+
+def Elems.imps : Elems → List ImpSrc
+  | .nil => []
+  | .comp _ t => t.imps
+  | .ext _ t => t.imps
+  | .imp i t => i :: t.imps
+  | .cls _ t => t.imps
+  | .short _ t => t.imps
+
+/-- Number of declarators an element list holds itself. -/
+def Elems.declCount (es : Elems) : Nat := (es.clauses.map (·.decls.length)).sum
+
+/-- Labels of the class's element lists: `none` for the leading one, then one per public/protected section. -/
+def Sections.labels : Sections → List (Option Vis)
+  | .nil => []
+  | .elems v _ t => some v :: t.labels
+  | .eqs _ _ t => t.labels
+  | .algs _ _ t => t.labels
+
+def ClassSrc.labels : ClassSrc → List (Option Vis)
+  | .mk _ _ ss => none :: ss.labels
+
+/-- For every declarator of the later sections, the index of the element list it stands in. -/
+def Sections.secs : Sections → Nat → List Nat
+  | .nil, _ => []
+  | .elems _ es t, i => List.replicate es.declCount i ++ t.secs (i + 1)
+  | .eqs _ _ t, i => t.secs i
+  | .algs _ _ t, i => t.secs i
+
+def ClassSrc.secs : ClassSrc → List Nat
+  | .mk _ first ss => List.replicate first.declCount 0 ++ ss.secs 1
+
+def Sections.exts : Sections → List ExtSrc
+  | .nil => []
+  | .elems _ es t => es.exts ++ t.exts
+  | .eqs _ _ t => t.exts
+  | .algs _ _ t => t.exts
+
+def ClassSrc.exts : ClassSrc → List ExtSrc
+  | .mk _ first ss => first.exts ++ ss.exts
+
+def Sections.extSecs : Sections → Nat → List Nat
+  | .nil, _ => []
+  | .elems _ es t, i => List.replicate es.exts.length i ++ t.extSecs (i + 1)
+  | .eqs _ _ t, i => t.extSecs i
+  | .algs _ _ t, i => t.extSecs i
+
+def ClassSrc.extSecs : ClassSrc → List Nat
+  | .mk _ first ss => List.replicate first.exts.length 0 ++ ss.extSecs 1
+
+def Sections.imps : Sections → List ImpSrc
+  | .nil => []
+  | .elems _ es t => es.imps ++ t.imps
+  | .eqs _ _ t => t.imps
+  | .algs _ _ t => t.imps
+
+def ClassSrc.imps : ClassSrc → List ImpSrc
+  | .mk _ first ss => first.imps ++ ss.imps
+
+/-- `exitImport_clause` for a sequence of import clauses. -/
+def importsFold : List ImpSrc → List (String × ImportVal) → Except Err (List (String × ImportVal))
+  | [], imps => .ok imps
+  | i :: t, imps =>
+    match addImport imps i with
+    | .ok imps' => importsFold t imps'
+    | .error e => .error e
+
+/-- Equations (`alg = false`) or statements (`alg = true`) of the sections with the given `initial`
+    flag, concatenated in source order. -/
+def Sections.items (alg initial : Bool) : Sections → List String
+  | .nil => []
+  | .elems _ _ t => t.items alg initial
+  | .eqs ini xs t => (if !alg && ini == initial then xs else []) ++ t.items alg initial
+  | .algs ini xs t => (if alg && ini == initial then xs else []) ++ t.items alg initial
+
+/-- Nested class definitions an element list holds itself: long (`inl`) or short (`inr`) form. -/
+def Elems.nested : Elems → List (ClassSrc ⊕ ShortSrc)
+  | .nil => []
+  | .comp _ t => t.nested
+  | .ext _ t => t.nested
+  | .imp _ t => t.nested
+  | .cls c t => .inl c :: t.nested
+  | .short s t => .inr s :: t.nested
+
+def Sections.nested : Sections → List (ClassSrc ⊕ ShortSrc)
+  | .nil => []
+  | .elems _ es t => es.nested ++ t.nested
+  | .eqs _ _ t => t.nested
+  | .algs _ _ t => t.nested
+
+def ClassSrc.nested : ClassSrc → List (ClassSrc ⊕ ShortSrc)
+  | .mk _ first ss => first.nested ++ ss.nested
+
+mutual
+/-- Every symbol of a class and of the classes nested in it. -/
+def deepSyms : ClassAst → List Sym
+  | .mk i cs => deepSymsList cs ++ i.symbols
+def deepSymsList : List ClassAst → List Sym
+  | [] => []
+  | c :: t => deepSyms c ++ deepSymsList t
+end
+
+/-- The Python objects `type`, `dimensions`, `prefixes` of two symbols are pairwise different objects. -/
+def Sym.Distinct (y z : Sym) : Prop := y.typeId ≠ z.typeId ∧ y.dimsId ≠ z.dimsId ∧ y.prefId ≠ z.prefId
 
 end PymocaVerif.ClassAsm
